@@ -37,6 +37,11 @@ txt = txt.replace('FINDINGS_TABLE', ft).replace('SEEDED_TABLE', st)
 txt = txt.replace('SEEDED_SUMMARY', '%d seeded changes: %d reported as VIOLATION by the current checks, %d of them with a concrete failing '
                   'input as replay. Changes marked in the last column were missed by an earlier version of a check and led to the '
                   'strengthening described there.' % (n, det, conc))
+bt, bn, bok = T.benign()
+txt = txt.replace('BENIGN_TABLE', bt).replace('BENIGN_SUMMARY', '%d refactorings, %d without any alarm on the current checks. The first full run of the '
+                  'suite raised three alarms, all in C19 (`C19_ctor` / `C19_comp`, wall-clock dependent observables under machine load) and two translator '
+                  'proof breaks (R-C02: a `for range` loop rewritten as an index loop): they were false alarms, corrected in the machinery (§6: timing audit, '
+                  'marker-based loop lemmas, tie-unavailable policy) — never by loosening a check.' % (bn, bok))
 txt = re.sub(r'\*\*\d+ genuine defects\*\*', '**%d genuine defects**' % (nfix + nknown), txt)
 txt = re.sub(r'\d+ were repaired\nwith small', '%d were repaired\nwith small' % nfix, txt)
 txt = re.sub(r'passes after each\), \d+ are recorded', 'passes after each), %d are recorded' % nknown, txt)
